@@ -3,6 +3,7 @@ package main
 import (
 	"context"
 	"fmt"
+	"github.com/grafana/cog/internal/tools"
 	"os"
 	"path/filepath"
 	"regexp"
@@ -61,7 +62,8 @@ func normalFormViolations(lang string, schemas ast.Schemas) []nfViolation {
 			for _, m := range t.Enum.Values {
 				switch lang {
 				case "go":
-					if top && !strings.HasPrefix(m.Name, upperFirst(obj.Name)) {
+					// the prefix is the object's name as Go spells it (UpperCamelCase), not necessarily its raw name
+					if top && !strings.HasPrefix(m.Name, upperFirst(obj.Name)) && !strings.HasPrefix(m.Name, tools.UpperCamelCase(obj.Name)) {
 						add("enum-member-not-prefixed")
 					}
 				case "typescript", "python":
